@@ -121,7 +121,7 @@ def random_case(rng, maxlen=40, faults=True, foreign=True, closes=True, profile=
         elif k < 0.57:
             lines.append("peerWrite g:%d:%d" % (rng.randrange(1 << 30), size(rng)))
         elif k < 0.60 and closes:
-            lines.append(rng.choice(["peerShutWr", "peerClose", "peerShutWr"]))
+            lines.append(rng.choice(["peerShutWr", "peerClose", "peerShutWr", "ownerDestroy"]))
         elif k < 0.64:
             lines.append("hook %s %s" % (rng.choice(["up", "msg", "wc", "hwm", "down"]), gen_act(rng)))
         elif k < 0.68:
@@ -131,7 +131,7 @@ def random_case(rng, maxlen=40, faults=True, foreign=True, closes=True, profile=
     # let things settle
     lines += ["iter", "iter"]
     if closes and rng.random() < 0.5:
-        lines += [rng.choice(["peerClose", "act L forceClose", "act F forceClose", "act L shutdown"]), "iter", "iter",
+        lines += [rng.choice(["peerClose", "act L forceClose", "act F forceClose", "act L shutdown", "ownerDestroy"]), "iter", "iter",
                   "peerClose", "iter", "iter", "iter"]
     return lines
 
